@@ -306,6 +306,19 @@ func (h *Hist) Actions() map[string]func(*rapid.T) {
 			w.logf("fault: data device write #%d from now fails", k)
 		}
 	}
+	if h.Opt.DevFaults && w.St.Media.Index != nil {
+		a["indexfault"] = func(t *rapid.T) {
+			d := w.St.Media.Index
+			k := rapid.IntRange(0, 6).Draw(t, "afterReads")
+			c.Add("indexfault", k)
+			h.FaultsInjected++
+			if d.FailRead == nil {
+				d.FailRead = map[int]error{}
+			}
+			d.FailRead[d.Reads+k] = status.Error(codes.DataLoss, "injected index read failure")
+			w.logf("fault: index device read #%d from now fails", k)
+		}
+	}
 	if h.Opt.Composite {
 		a["composite"] = func(t *rapid.T) {
 			o := PickObj(t, w, "obj")
